@@ -443,6 +443,11 @@ def main(ctx):
         tie_ok = False
         ctx.log('translator failed closed:', e)
         ctx.notes['translator_error'] = f'{type(e).__name__}: {e}'
+    try:        # translator self-test: same-meaning spellings / mutants of the tree's own source (notes only)
+        import c06_selftest
+        ctx.notes['translator_selftest'] = c06_selftest.run(str(lib.REPO), ctx.scratch / 'selftest')
+    except Exception as e:      # noqa
+        ctx.notes['translator_selftest'] = f'error: {type(e).__name__}: {e}'
     # A region the translator cannot read is not a violation by itself: its values come from the
     # committed baseline (T degrades to H) and the correspondence is widened.
     degraded = tie_ok and bool(unread or changed)
